@@ -177,10 +177,150 @@ Example C09_unrooted_forms_read_as_expressions :
   parse_json_path [] = Ok [].
 Proof. vm_compute. repeat split; reflexivity. Qed.
 
-(* soundness (what the parser accepts is in the grammar) is proved so far for one step other than an index list: what
-   inner_path reads as  .*  [*]  .name  ."name"  :name  :"name"  ["name"]  is a step of the grammar with that meaning.
-   Not proved: index lists, expressions, whole paths (for these only the shape of the result is proved, C09_parser_image). *)
+(* soundness (what the parser accepts is in the grammar), first fragment: what inner_path reads as
+   .*  [*]  .name  ."name"  :name  :"name"  ["name"]  is a step of the grammar with that meaning.
+   (Kept for reference; superseded by C09_nothing_else_is_accepted below, which covers index lists, literals,
+   expressions, filters and whole paths.) *)
 Theorem C09_accepted_steps_are_in_the_grammar_partial :
   forall bs r p, inner_path bs = POk r p -> (forall l, p <> PIndices l) -> exists t, bs = t ++ r /\ step_text t p.
 Proof. exact inner_path_sound_partial. Qed.
 Print Assumptions C09_accepted_steps_are_in_the_grammar_partial.
+
+(* ---- soundness: NOTHING ELSE is accepted.  Whatever parse_json_path accepts is a text of the grammar jp_text, with the
+   structure the grammar gives it (PathGrammarSound.v: every alternative of every ordered choice of the parser, in the
+   parser's order, lands in a production; the whole-input check — trailing spacing, nothing left over — included).
+   No production had to be added to PathGrammar.v: the X_ productions already there (signs on positions and offsets,
+   `last + n`, `+5`, `5.`, `.5`, nan / inf, `@` inside exists at the top level, escapes in bare names) are all the
+   extras the parser has. *)
+From JB Require Import PathGrammarSound.
+
+Theorem C09_nothing_else_is_accepted : forall t ps, parse_json_path t = Ok ps -> jp_text t ps.
+Proof. exact grammar_sound. Qed.
+Print Assumptions C09_nothing_else_is_accepted.
+
+(* "Input with anything left over, or any other byte string, is rejected with an error and never a panic." *)
+Theorem C09_everything_else_is_an_error : forall t, (forall ps, ~ jp_text t ps) -> exists e, parse_json_path t = Err e.
+Proof. exact grammar_rejected. Qed.
+Print Assumptions C09_everything_else_is_an_error.
+
+(* the forms with a leading `$` and the standalone predicates (the structures PRoot :: _ and [PPredicate _]) are accepted
+   EXACTLY: parser and grammar coincide on them, structure included *)
+Theorem C09_rooted_forms_are_accepted_exactly :
+  forall t ps, rooted_structure ps -> (parse_json_path t = Ok ps <-> jp_rooted_text t ps).
+Proof. exact rooted_exact. Qed.
+Print Assumptions C09_rooted_forms_are_accepted_exactly.
+
+(* and so is every form, rooted or not, on the texts that do not start like an expression (see
+   C09_unrooted_paths_are_accepted_as_intended_partial for why the restriction is there) *)
+Theorem C09_accepted_exactly_partial :
+  forall t ps, ~ starts_like_an_expression (multispace0 t) -> (parse_json_path t = Ok ps <-> jp_text t ps).
+Proof. exact grammar_exact_partial. Qed.
+Print Assumptions C09_accepted_exactly_partial.
+
+(* one structure per text: on the rooted half of the grammar, and on the whole grammar outside the texts that start like an
+   expression.  The whole grammar is NOT functional: C09_grammar_is_ambiguous_on_unrooted_forms. *)
+Theorem C09_rooted_grammar_is_functional : forall t p1 p2, jp_rooted_text t p1 -> jp_rooted_text t p2 -> p1 = p2.
+Proof. exact jp_rooted_text_functional. Qed.
+Print Assumptions C09_rooted_grammar_is_functional.
+Theorem C09_grammar_is_functional_partial :
+  forall t p1 p2, ~ starts_like_an_expression (multispace0 t) -> jp_text t p1 -> jp_text t p2 -> p1 = p2.
+Proof. exact jp_text_functional_partial. Qed.
+Print Assumptions C09_grammar_is_functional_partial.
+
+(* `5.* .5` is an unrooted path of the grammar (field 5, wildcard, field 5) AND the predicate 5. * .5; the parser reads the
+   predicate (alternatives in their order: predicate, rooted path, unrooted path) *)
+Example C09_grammar_is_ambiguous_on_unrooted_forms :
+  let t := [53; 46; 42; 32; 46; 53] in
+  jp_unrooted_text t [PDotField [53]; PDotWild; PDotField [53]] /\
+  jp_rooted_text t [PPredicate (EArithB BMul (EValue (PVNum (NFloat 4617315517961601024))) (EValue (PVNum (NFloat 4602678819172646912))))] /\
+  parse_json_path t = Ok [PPredicate (EArithB BMul (EValue (PVNum (NFloat 4617315517961601024))) (EValue (PVNum (NFloat 4602678819172646912))))].
+Proof. exact jp_text_ambiguous. Qed.
+Print Assumptions C09_grammar_is_ambiguous_on_unrooted_forms.
+
+(* the pieces, usable on their own: every reader returns, with what it leaves unread, a text of its production.
+   reads Q f: f bs = POk r a -> bs = spacing ++ t ++ spacing ++ r with Q t a. *)
+Theorem C09_accepted_pieces_are_in_the_grammar :
+  (forall bs r i, pindex bs = POk r i -> exists t, bs = t ++ r /\ index_text t i) /\
+  (forall bs r a, parray_index bs = POk r a -> exists t, bs = t ++ r /\ array_index_text t a) /\
+  (forall bs r l, array_indices bs = POk r l -> exists ts, bs = 91 :: ts ++ 93 :: r /\ index_list_text ts l) /\
+  (forall bs r p, inner_path bs = POk r p -> exists t, bs = t ++ r /\ step_text t p) /\
+  (forall bs r v, path_value bs = POk r v -> exists t, bs = t ++ r /\ literal_text t v) /\
+  (forall rp bs r e, inner_expr rp bs = POk r e -> exists t w, bs = t ++ w ++ r /\ operand_text (negb rp) t e /\ pws w) /\
+  (forall fuel rp, reads (or_text (negb rp)) (expr_or_fuel fuel rp)) /\
+  (forall fuel, reads fstep_text (path_fuel fuel)).
+Proof.
+  repeat split; [exact pindex_sound|exact parray_index_sound|exact array_indices_sound|exact inner_path_sound|exact path_value_sound
+                |exact operand_sound|exact expr_or_fuel_sound|exact path_fuel_sound].
+Qed.
+Print Assumptions C09_accepted_pieces_are_in_the_grammar.
+
+(* the number literals of the path language include every JSON number (RFC 8259 section 6, JsonGrammar.jnumber), with the
+   same value: unsigned integers below 2^64, negative integers down to -2^63, the nearest double otherwise *)
+Theorem C09_json_numbers_are_path_literals : forall t n, jnumber t n -> number_text t n.
+Proof. exact jnumber_number_text. Qed.
+Print Assumptions C09_json_numbers_are_path_literals.
+
+(* soundness at work: from an accepted input, its derivation in the grammar *)
+Example C09_accepted_text_has_a_derivation :
+  jp_rooted_text [36; 91; 48; 44; 32; 76; 65; 83; 84; 32; 45; 32; 49; 32; 116; 111; 32; 108; 97; 115; 116; 93]
+                 [PRoot; PIndices [AIndex (IIndex 0); ASlice (ILast (-1)) (ILast 0)]].
+Proof. apply C09_rooted_forms_are_accepted_exactly; [exact I|exact C09_indices]. Qed.
+Print Assumptions C09_accepted_text_has_a_derivation.
+
+(* rejections as consequences: a rejected text that does not start like an expression is OUTSIDE the grammar (by the
+   completeness theorems), and being outside the grammar is why it is an error (C09_everything_else_is_an_error) *)
+Definition C09_rejected_and_outside (t : list N) : Prop := parse_json_path t = Err EOther /\ forall ps, ~ jp_text t ps.
+Lemma C09_rejected_outside_by_computation t :
+  parse_json_path t = Err EOther -> starts_like_b (multispace0 t) = false -> C09_rejected_and_outside t.
+Proof. intros He Hs. split; [exact He|]. apply (rejected_outside_partial t EOther He). apply starts_like_b_false. exact Hs. Qed.
+
+(* every expression of the crate's own rejection test (tests/it/jsonpath_parser.rs, test_json_path_error):
+   $.[   $X   $.   $.prop.   $.prop+.   $..   $.prop..   $.foo bar   $[0, 1, 2 4]   $['1','2',]   $['1', ,'3']
+   $['aaa'}'bbb']   @ > 10 *)
+Example C09_documented_rejections_are_outside_the_grammar :
+  C09_rejected_and_outside [36; 46; 91] /\
+  C09_rejected_and_outside [36; 88] /\
+  C09_rejected_and_outside [36; 46] /\
+  C09_rejected_and_outside [36; 46; 112; 114; 111; 112; 46] /\
+  C09_rejected_and_outside [36; 46; 112; 114; 111; 112; 43; 46] /\
+  C09_rejected_and_outside [36; 46; 46] /\
+  C09_rejected_and_outside [36; 46; 112; 114; 111; 112; 46; 46] /\
+  C09_rejected_and_outside [36; 46; 102; 111; 111; 32; 98; 97; 114] /\
+  C09_rejected_and_outside [36; 91; 48; 44; 32; 49; 44; 32; 50; 32; 52; 93] /\
+  C09_rejected_and_outside [36; 91; 39; 49; 39; 44; 39; 50; 39; 44; 93] /\
+  C09_rejected_and_outside [36; 91; 39; 49; 39; 44; 32; 44; 39; 51; 39; 93] /\
+  C09_rejected_and_outside [36; 91; 39; 97; 97; 97; 39; 125; 39; 98; 98; 98; 39; 93] /\
+  C09_rejected_and_outside [64; 32; 62; 32; 49; 48].
+Proof. repeat split; try (apply C09_rejected_outside_by_computation; vm_compute; reflexivity). Qed.
+Print Assumptions C09_documented_rejections_are_outside_the_grammar.
+
+(* more of the same: a trailing comma, `last - n` with n beyond i32 (the offset alternative declines, `last` alone is read and
+   the rest is left over), text after `inf`, a bare operand as a filter, a dangling &&, a parenthesised operand, exists(..)
+   as an operand, `to` without an end, single quotes, an empty filter, two literals, an unclosed parenthesis, exists of a
+   literal, a sign before spacing and a path in a comparison, a chain of comparisons:
+   $[1,]   $[last - 99999999999]   $ == infinityx   $?(@.a)   $ == 1 &&   $.a == (1)   $ == exists($.a)   $[1 to]   $.'a'
+   $?()   $ == 1 2   ( $.a == 1   $?(exists(5))   - $.a == 1   $ == $ == $ *)
+Example C09_more_rejections_outside_the_grammar :
+  C09_rejected_and_outside [36; 91; 49; 44; 93] /\
+  C09_rejected_and_outside [36; 91; 108; 97; 115; 116; 32; 45; 32; 57; 57; 57; 57; 57; 57; 57; 57; 57; 57; 57; 93] /\
+  C09_rejected_and_outside [36; 32; 61; 61; 32; 105; 110; 102; 105; 110; 105; 116; 121; 120] /\
+  C09_rejected_and_outside [36; 63; 40; 64; 46; 97; 41] /\
+  C09_rejected_and_outside [36; 32; 61; 61; 32; 49; 32; 38; 38] /\
+  C09_rejected_and_outside [36; 46; 97; 32; 61; 61; 32; 40; 49; 41] /\
+  C09_rejected_and_outside [36; 32; 61; 61; 32; 101; 120; 105; 115; 116; 115; 40; 36; 46; 97; 41] /\
+  C09_rejected_and_outside [36; 91; 49; 32; 116; 111; 93] /\
+  C09_rejected_and_outside [36; 46; 39; 97; 39] /\
+  C09_rejected_and_outside [36; 63; 40; 41] /\
+  C09_rejected_and_outside [36; 32; 61; 61; 32; 49; 32; 50] /\
+  C09_rejected_and_outside [40; 32; 36; 46; 97; 32; 61; 61; 32; 49] /\
+  C09_rejected_and_outside [36; 63; 40; 101; 120; 105; 115; 116; 115; 40; 53; 41; 41] /\
+  C09_rejected_and_outside [45; 32; 36; 46; 97; 32; 61; 61; 32; 49] /\
+  C09_rejected_and_outside [36; 32; 61; 61; 32; 36; 32; 61; 61; 32; 36].
+Proof. repeat split; try (apply C09_rejected_outside_by_computation; vm_compute; reflexivity). Qed.
+Print Assumptions C09_more_rejections_outside_the_grammar.
+
+(* a rejected text that does start like an expression is at least outside the rooted half: `5.e` (also an unrooted path of
+   the grammar: the one place where parser and grammar differ, see C09_unrooted_forms_read_as_expressions) *)
+Example C09_rejected_expression_like_text : forall ps, ~ jp_rooted_text [53; 46; 101] ps.
+Proof. apply (rejected_not_rooted _ EOther). vm_compute. reflexivity. Qed.
+Print Assumptions C09_rejected_expression_like_text.
